@@ -2104,16 +2104,17 @@ class collect(Stream):
         self.metadata_cache.clear()
         ret = self._emit(out, metadata)
         self._release_refs(metadata)
-        if ret and self.loop is not None:
+        if ret:
             try:
-                on_loop = asyncio.get_running_loop() is getattr(self.loop, 'asyncio_loop', None)
+                asyncio.get_running_loop()
             except RuntimeError:
-                on_loop = False
-            if on_loop:
-                # one awaitable for whoever triggered the flush
-                # (``trigger.sink(collector.flush)``), so that it waits for
-                # the consumers of the collection like any other emit does
-                return gen.convert_yielded(ret)
+                return
+            # called on a running event loop (this pipeline's own, or that of
+            # the pipeline whose sink triggers the flush): one awaitable for
+            # whoever triggered it (``trigger.sink(collector.flush)``), so
+            # that it waits for the consumers of the collection like any
+            # other emit does
+            return gen.convert_yielded(ret)
 
 
 @Stream.register_api()
